@@ -310,6 +310,24 @@ static void gen_decode(long seed, int nrandom)
 			strcpy(ids[nids], own[w]); ids[nids++][1] ^= 0x01;
 			strcpy(ids[nids], own[w]); ids[nids++][3] ^= 0x80;
 		}
+		/* the same ids where the decoder expects "fmt " (a chunk in front of the format chunk), with sizes of every magnitude:
+		 * whatever the decoder makes of it, it reads only the bytes it was given */
+		{
+			static const uint32_t hs[] = { 0, 1, 4, 16, 28, 0x7fffffffu, 0x80000000u, 0xffffffc0u, 0xffffffecu, 0xfffffff0u, 0xffffffffu, 0xffffff00u };
+			for (int kind = 0; kind < 4; kind += 3)
+				for (unsigned i = 0; i < nids; i++)
+					for (unsigned h = 0; h < sizeof(hs) / sizeof(hs[0]); h++) {
+						int n = base_header(kind, buf);
+						memset(m, 0, sizeof(m));
+						/* (a) the id replaces "fmt " in place; (b) a whole extra chunk header is put in front of the fmt chunk */
+						memcpy(m, buf, n); memcpy(m + 12, ids[i], 4); put32(m + 16, hs[h]);
+						decode_case(m, n);
+						if (h % 3 == 0) decode_case(m, 20);
+						memcpy(m, buf, 12); memcpy(m + 12, ids[i], 4); put32(m + 16, hs[h]); memcpy(m + 20, buf + 12, n - 12);
+						put32(m + 4, n);
+						decode_case(m, n + 8);
+					}
+		}
 		for (int kind = 0; kind < 7; kind++)
 			for (unsigned i = 0; i < nids; i++)
 				for (unsigned pl = 0; pl < 5; pl++) {
